@@ -237,7 +237,7 @@ func runC05(c *core.Ctx) {
 	n := c.Pick(400, 3000)
 	c.RunHistories(n, Registry["C05"].Mons, func(w *core.World) {
 		wts := map[string]int{
-			"edit-new": 12, "edit-mod": 8, "edit-rm": 3, "add": 14, "rm": 5, "commit": 10, "commit-all": 6,
+			"edit-new": 12, "edit-copy": 2, "edit-copydir": 1, "edit-mod": 8, "edit-rm": 3, "add": 14, "rm": 5, "commit": 10, "commit-all": 6,
 			"restore-staged": 2, "switch-c": 1,
 		}
 		k := NewWalker(w, gen.NameOpts{Space: true, NonASCII: w.Hist%3 == 0, MaxDepth: 4, N: 5 + w.Hist%6}, wts)
